@@ -235,6 +235,31 @@ func runC03(r *core.Run) {
 				csv.WriteString(cell(a) + "," + cell(b) + "\n")
 			}
 			k0 := 1 + rng.Intn(3)
+			if rng.Intn(3) == 0 {
+				// a base result with duplicates in front of a chain: the first edge several times, then k0+1 -> k0+2 -> ..
+				// (what the first step adds is not more than what UNION removes from the base result)
+				var pre [][]int
+				for i := 0; i < 2+rng.Intn(2); i++ {
+					pre = append(pre, []int{k0, k0 + 1})
+				}
+				for a := k0 + 1; a < 7 && a < k0+2+rng.Intn(4); a++ {
+					pre = append(pre, []int{a, a + 1})
+				}
+				edges = append(pre, edges...)
+				csv.Reset()
+				csv.WriteString("src,dst\n")
+				for _, ed := range edges {
+					for i, v := range ed {
+						if i > 0 {
+							csv.WriteString(",")
+						}
+						if v != -1 {
+							csv.WriteString(fmt.Sprint(v))
+						}
+					}
+					csv.WriteString("\n")
+				}
+			}
 			all := rng.Intn(2) == 0
 			op := "UNION"
 			if all {
